@@ -52,7 +52,7 @@ def _fresh(repo, init, e):
     mutable object (every instance would share it); None if not recognised"""
     if isinstance(e, ast.Constant):
         return True
-    if isinstance(e, (ast.Dict, ast.List, ast.DictComp, ast.ListComp)):
+    if isinstance(e, (ast.Dict, ast.List, ast.DictComp, ast.ListComp, ast.Tuple)):
         return True
     if isinstance(e, ast.Call):
         f = ast.unparse(e.func)
@@ -91,7 +91,14 @@ def init_consts(ctx, repo, cname, attrs):
                     try:
                         vals[t.attr] = repo.fold(src, init.mod, init.cls)
                     except Unfoldable:
-                        raise AnalysisError(f"{cname}.__init__: initial value of {t.attr} is not a constant")
+                        # computed from module/class constants (comprehension over a range table, ...)
+                        try:
+                            v = Interp(repo).eval(src, {"__mod__": init.mod, "__class__": init.cls})
+                        except (PyRaise, Undecided) as ex:
+                            raise AnalysisError(f"{cname}.__init__: initial value of {t.attr} is not a constant ({ex})")
+                        if not isinstance(v, (int, dict, list, tuple)):
+                            raise AnalysisError(f"{cname}.__init__: initial value of {t.attr} is not a constant")
+                        vals[t.attr] = v
                     fr = _fresh(repo, init, e)
                     if fr is None:
                         raise AnalysisError(f"{cname}.__init__: cannot tell whether `self.{t.attr} = {ast.unparse(e)}` gives the instance its own object - idiom not supported by C16.R3")
